@@ -36,6 +36,7 @@ import (
 	"sort"
 	"strconv"
 	"strings"
+	"sync"
 	"sync/atomic"
 	"time"
 
@@ -601,6 +602,107 @@ func (e *episode) doAwait(run *hx.Run, rid int, k key) string {
 	return e.observe(run, "-", opInfo{kind: "await"}, before)
 }
 
+// raceCtx is a context whose first Done() call runs `fire`: the Store of the awaited key happens at
+// the very point where Await, having looked the key up, is about to wait (a Store that takes the
+// lock exactly between the reader's lookup and its wait).
+type raceCtx struct {
+	context.Context
+	once  *sync.Once
+	calls *atomic.Int64
+	at    int64 // fire on the at-th Done() call (the reader may ask for Done() while holding its lock first)
+	fire  func()
+}
+
+func (c raceCtx) Done() <-chan struct{} {
+	if c.calls.Add(1) >= c.at {
+		c.once.Do(c.fire)
+	}
+	return c.Context.Done()
+}
+
+// doAwaitStore: Await(k) racing with Store(entry for k). Whatever the interleaving, once both calls
+// are quiescent the reader must have returned the stored value: the outcome equals `await; store`.
+func (e *episode) doAwaitStore(run *hx.Run, rid int, k key, dlst int, at int, ents []entry) string {
+	before := len(e.blocked())
+	base, cancel := context.WithCancel(context.Background())
+	rd := &reader{rid: rid, k: k, cancel: cancel}
+	e.readers[rid] = rd
+	e.used[rid] = true
+	set := core.SignedDataSet{}
+	for _, en := range ents {
+		val, _ := mkValue(en.dsub, en.v)
+		set[pubKey(en.pk)] = val
+	}
+	e.dl.status.Store(int64(dlst))
+	a0 := e.dl.adds.Load()
+	var storeErr error
+	stored := make(chan struct{})
+	fired := make(chan struct{})
+	once := new(sync.Once)
+	fire := func() {
+		close(fired)
+		go func() {
+			storeErr = e.db.Store(context.Background(), k.duty(), set)
+			close(stored)
+		}()
+		// let the Store run to completion while the reader sits between lookup and wait (if the
+		// reader holds a lock here the Store cannot finish: carry on after a moment)
+		select {
+		case <-stored:
+		case <-time.After(20 * time.Millisecond):
+		}
+	}
+	ctx := raceCtx{Context: base, once: once, calls: new(atomic.Int64), at: int64(at), fire: fire}
+	reg := make(chan int64)
+	pk := pubKey(k.pk)
+	go func() {
+		reg <- curGoid()
+		v, err := e.db.Await(ctx, k.duty(), pk, core.SubcommitteeIndex(k.sub))
+		e.results <- result{rid, v, err}
+	}()
+	rd.goid = <-reg
+	// wait until the store fired inside Await, or the reader is parked / gone without having asked
+	// for ctx.Done() often enough (then: plain sequence await; store)
+	idle := 0
+	for spin := 0; ; spin++ {
+		select {
+		case <-fired:
+		default:
+			st := goStates()
+			if s, present := st[rd.goid]; !present || parked(s) {
+				idle++
+			} else {
+				idle = 0
+			}
+			if idle >= 3 {
+				once.Do(fire)
+				break
+			}
+			if spin < 50 {
+				runtime.Gosched()
+			} else {
+				time.Sleep(20 * time.Microsecond)
+			}
+			continue
+		}
+		break
+	}
+	if ctx.calls.Load() >= int64(at) {
+		run.Count(e.impl + ":awaitst:store_inside_await")
+	} else {
+		run.Count(e.impl + ":awaitst:store_after_await")
+	}
+	select {
+	case <-stored:
+	case <-time.After(60 * time.Second):
+		panic("racing store did not return")
+	}
+	out := e.observe(run, "", opInfo{kind: "store", storeErr: storeErr, duty: k, entries: ents}, before)
+	adds := int(e.dl.adds.Load() - a0)
+	run.Count(e.impl + ":awaitst:" + errClass(storeErr))
+	return fmt.Sprintf("%s:%d%s", errClass(storeErr), adds, out)
+}
+
 // canonOrder reorders the entries into an iteration order consistent with what the implementation
 // did (Go's map order is not observable directly): entries it stored first, then as many
 // already-present-and-equal entries as needed to explain the number of deadliner.Add calls, then
@@ -805,6 +907,23 @@ func (dr *driver) exec(op string) {
 			return
 		}
 		run.Op(op, e.doAwait(run, rid, key{d.slot, d.ty, pk, sub}))
+	case "awaitst":
+		if len(f) != 8 {
+			bad()
+			return
+		}
+		rid, e1 := strconv.Atoi(f[1])
+		d, ok := parseDuty(f[2])
+		pk, e2 := strconv.Atoi(f[3])
+		sub, e3 := strconv.Atoi(f[4])
+		dlst, e4 := strconv.Atoi(f[5])
+		at, e5 := strconv.Atoi(f[6])
+		en, ok2 := parseEntry(f[7])
+		if e1 != nil || !ok || e2 != nil || e3 != nil || e4 != nil || e5 != nil || at < 1 || !ok2 || rid < 0 || pk < 0 || sub < 0 || e.used[rid] {
+			bad()
+			return
+		}
+		run.Op(op, e.doAwaitStore(run, rid, key{d.slot, d.ty, pk, sub}, dlst, at, []entry{en}))
 	case "store":
 		if len(f) < 3 {
 			bad()
@@ -926,6 +1045,24 @@ func (dr *driver) genEpisode(rng *hx.Rng, impl string) {
 			}
 			dr.exec(fmt.Sprintf("await %d %d/%d %d %d", nextRid, k.slot, k.ty, k.pk, k.sub))
 			nextRid++
+		case c < 44 && len(e.blocked()) < 8: // reader racing with the store of its own key
+			k := randKey()
+			if wk, ok := waitedKey(); ok && rng.Chance(1, 3) {
+				k = wk
+			}
+			en := canonEntry(k)
+			if rng.Chance(1, 8) {
+				en.v = fresh
+				fresh++
+			}
+			if !isSync(k.ty) && k.sub != 0 {
+				k.sub = 0
+			}
+			nb := len(e.blocked())
+			at := []int{1, 2, 2, 2, 3}[rng.Intn(5)] // V2: 1 = inside the lookup's read lock, 2 = between lookup and wait
+			dr.exec(fmt.Sprintf("awaitst %d %d/%d %d %d %d %d %s", nextRid, k.slot, k.ty, k.pk, k.sub, rng.Intn(3), at, en.String()))
+			nextRid++
+			run.Case(fmt.Sprintf("%s:awaitst:w%d:woke%d", impl, nb, nb+1-len(e.blocked())))
 		case c < 72: // store
 			var k key
 			if wk, ok := waitedKey(); ok && rng.Chance(3, 5) {
